@@ -73,6 +73,8 @@ def run(tier, seed):
     X.refine_stage(ctx, ["sage_a", "pfi_a"] if quick else ["sage_a", "pfi_a", "sage_b", "sage_c", "sage_d", "sage_e", "pfi_b",
                                                             "pfi_c", "pfi_d", "sage_o", "pfi_o", "sage_def", "pfi_def"],
                    negatives=["sage_neg", "pfi_neg"], exists_form=() if quick else ("sage_a", "pfi_a"))
+    X.skeleton_stage(ctx, ["sage_a", "pfi_a"] if quick else ["sage_a", "pfi_a", "sage_b", "sage_c", "sage_d", "pfi_b", "pfi_d", "sage_o",
+                                                             "pfi_o", "sage_def", "pfi_def"], negatives=["sage_neg"] if quick else ["sage_neg", "pfi_neg"])
     X.replay_stage(ctx, ["sage_fq", "pfi_fq"] if quick else ["sage_fq", "pfi_fq", "sage_fa", "pfi_fa", "sage_fprod", "sage_ff", "sage_fdef"],
                    wanted_replay, limit=2500 if quick else 12000, rng=rng)
     scs = fault_scenarios(rng, 8 if quick else 60, quick, pairs=not quick)
